@@ -329,7 +329,15 @@ func genCase(r *vh.Rand, o genOpts) Case {
 		knownFiles = []string{"src/a.js"}
 		visible = append(visible, "src/a.js")
 	}
-	pickKnown := func() string { return knownFiles[r.Intn(len(knownFiles))] }
+	hiddenKnown := t.filePaths(func(p string) bool {
+		return isHiddenPath(p) && knownExt(p) && !strings.HasPrefix(p, "out/")
+	})
+	pickKnown := func() string {
+		if len(hiddenKnown) > 0 && r.Chance(1, 8) {
+			return hiddenKnown[r.Intn(len(hiddenKnown))] // a hidden file named on the command line
+		}
+		return knownFiles[r.Intn(len(knownFiles))]
+	}
 	dirs := []string{}
 	for _, d := range t.dirPaths() {
 		if !isHiddenPath(d) && d != "out" {
@@ -462,7 +470,9 @@ func genCase(r *vh.Rand, o genOpts) Case {
 		dirShape = true
 		recFlag()
 		inputs = []string{dirInput(pickDir())}
-		if r.Chance(1, 6) && len(dirs) > 1 {
+		if r.Chance(1, 10) {
+			inputs = []string{r.Pick(".", "./")} // the working directory itself: top-level entries are mirrored under their own names
+		} else if r.Chance(1, 6) && len(dirs) > 1 {
 			inputs = append(inputs, dirInput(pickDir()))
 			if inputs[0] == inputs[1] {
 				inputs = inputs[:1]
